@@ -506,7 +506,18 @@ def subj_kde(b, kind, pattern):
     Q = b.ref({"kind": "gauss", "shape": [4, d], "seed": _seed(rng)}, "query")
     reads = [("score_samples", {"X": Q}), ("score", {"X": Q}), ("sample", {"n_samples": 3, "random_state": rng.randrange(100)})]
     envs = ["rng"] + (["stderr"] if p.get("verbose") else [])
-    return dict(params=p, fitA=fitA, fitB=fitB, reads=reads, envs=envs, repeatable=True, fit_transform=False)
+    # re-parameterisation between two fits: the same object is pointed at ANOTHER descriptor
+    # set of another size (weights given normalised, as the constructor would leave them)
+    n2 = rng.randint(12, 30)
+    D2 = {"kind": "gauss", "shape": [n2, d], "seed": _seed(rng)}
+    alts = [{"descriptors": b.ref(D2, "descriptors"), "weights": b.ref(b.w(n2, "normalized"), "weights")},
+            {"descriptors": b.ref(D2, "descriptors"), "weights": b.ref(b.w(n2, "normalized"), "weights")},
+            ]
+    if "fpoints" in p:
+        # (with fspread > 0 the constructor itself overwrites fpoints: set_params and a fresh
+        # construction then legitimately differ)
+        alts.append({"fpoints": rng.choice([0.2, 0.4])})
+    return dict(params=p, fitA=fitA, fitB=fitB, reads=reads, envs=envs, repeatable=True, fit_transform=False, alts=alts)
 
 
 def subj_qs(b, kind, pattern):
@@ -779,6 +790,15 @@ def gen_fn_trace(b):
         tr = [b.add(b.X(rng.randint(1, 4), d, ["gauss", "uniform"]), "structure") for _ in range(rng.randint(3, 6))]
         te = [b.add(b.X(rng.randint(1, 4), d, ["gauss", "uniform"]), "structure") for _ in range(rng.randint(1, 4))]
         a = {"X_train": {"$hl": tr}, "X_test": {"$hl": te}, "alpha": 10 ** rng.uniform(-6, 0)}
+        if rng.random() < 0.35:
+            # structures with the same number of environments handed over as ONE regular 3-D
+            # float array (n_structures, n_environments, n_features) instead of a list
+            ne = rng.randint(1, 4)
+            a["X_test"] = b.ref({"kind": "stack3", "shape": [rng.randint(1, 4), ne, d], "seed": _seed(rng)}, "structures")
+            b.heap[a["X_test"]["$h"]]["storage"] = rng.choice(["C", "C", "readonly"])
+            if rng.random() < 0.5:
+                a["X_train"] = b.ref({"kind": "stack3", "shape": [rng.randint(3, 6), rng.randint(1, 4), d], "seed": _seed(rng)}, "structures")
+                b.heap[a["X_train"]["$h"]]["storage"] = rng.choice(["C", "C", "readonly"])
         if fn.startswith("component"):
             k = rng.randint(1, d)
             dims = [d // k] * k
